@@ -210,6 +210,14 @@ def gen_plan(seed, cfg):
         va, vb = rng.sample([0, 1, 2], 2)
         plan["threads"] = [[[0, va], [0, vb]], [[0, vb], [0, va]]]
         plan["park_sweep"] = {"thread": rng.randrange(2), "max": 90}
+        if rng.random() < 0.5:
+            # ... or two DIFFERENT never-compiled problems, one per thread: every shared write of one
+            # compilation as the parking position while the other compiles
+            cj = rng.choice([c for c in range(len(CATALOG)) if c != ci and not CATALOG[c][0].startswith("op:")])
+            plan["problems"][0]["prewarm"] = False
+            plan["problems"].append({"catalog": cj, "name": f"o{seed % 100000:05d}t", "backend": "llvm",
+                                     "entry": rng.choice(ENTRY_POINTS), "prewarm": False})
+            plan["threads"] = [[[0, va]], [[1, va]]]
     return plan
 
 
@@ -286,6 +294,10 @@ def _raw(t):
 
 _WRITE_OPS = ("STORE_ATTR", "STORE_GLOBAL", "STORE_SUBSCR", "STORE_DEREF", "DELETE_ATTR", "DELETE_SUBSCR",
               "DELETE_GLOBAL")
+# ... and calls of the mutating methods of the built-in containers (modules.append(x) stores nothing
+# by opcode but publishes state all the same)
+_MUTATORS = frozenset(("append", "extend", "insert", "add", "update", "setdefault", "pop", "popitem", "clear",
+                       "remove", "discard", "appendleft", "popleft", "move_to_end", "sort", "reverse"))
 
 
 def _write_lines(code):
@@ -298,7 +310,11 @@ def _write_lines(code):
     for ins in dis.get_instructions(code):
         if ins.starts_line is not None:
             cur = ins.starts_line
-        if ins.opname in _WRITE_OPS and cur is not None:
+        if cur is None:
+            continue
+        if ins.opname in _WRITE_OPS:
+            lines.add(cur)
+        elif ins.opname in ("LOAD_ATTR", "LOAD_METHOD") and ins.argval in _MUTATORS:
             lines.add(cur)
     return frozenset(lines)
 
